@@ -30,6 +30,11 @@ func runC08(p *core.Program, r *core.Report) {
 	c08R4(p, r, pl)
 	c08R5(p, r)
 	c08R6(p, r)
+	// R7: a directory is recorded as generated only when it was: the run that records the sums returned no error for any
+	// package (C02.R4: every error of a stage reaches Execute's result, nothing is swallowed on the way), and a package
+	// that was processed had every enabled type dispatched (C06.R1: the dispatch visits all types, no early exit)
+	chainRules(p, r, "R7", "C02", []string{"C02.R4"}, "a failing or interrupted stage makes Execute fail before the sums are saved")
+	chainRules(p, r, "R8", "C06", []string{"C06.R1"}, "a processed package had every enabled type dispatched")
 }
 
 func c08R1(p *core.Program, r *core.Report, pl *pipeline) {
